@@ -21,6 +21,8 @@ import (
 	"fmt"
 	"strings"
 	"sync"
+	"sync/atomic"
+	"time"
 
 	"gitlab.com/yawning/obfs4.git/common/replayfilter"
 	"gitlab.com/yawning/obfs4.git/transports/base"
@@ -98,10 +100,12 @@ func burst(sf base.ServerFactory, blob []byte, n int) (okCount int, written int,
 	// every conn gets all but the last byte first; the last bytes are released at the same
 	// instant once all n endpoints sit in Read waiting for them
 	gate := make(chan struct{})
+	var spin int32
 	conns := make([]*srvh.Conn, n)
 	for i := 0; i < n; i++ {
 		c := srvh.NewConn([]srvh.Step{{K: "c", B: blob[:len(blob)-1]}, {K: "g"}, {K: "c", B: blob[len(blob)-1:]}})
 		c.Gate = gate
+		c.Spin = &spin
 		conns[i] = c
 		wg.Add(1)
 		go func() {
@@ -121,7 +125,9 @@ func burst(sf base.ServerFactory, blob []byte, n int) (okCount int, written int,
 	for _, c := range conns {
 		<-c.AtGate
 	}
-	close(gate)
+	close(gate)                       // all n endpoints now spin inside their Read …
+	time.Sleep(200 * time.Microsecond) // … give every one of them a core
+	atomic.StoreInt32(&spin, 1)       // … and release them together
 	wg.Wait()
 	h1 = o4h.Hour()
 	return
